@@ -96,51 +96,62 @@ Ltac np_step :=
   | |- no_panic (let '(_, _) := ?x in _) => destruct x eqn:?
   end.
 
-(* ---- combined judgement: every call satisfies P and the result satisfies Q -- *)
-Inductive okp {A} (P : call -> Prop) (Q : A -> Prop) : prog A -> Prop :=
-| ok_ret a : Q a -> okp P Q (Ret a)
-| ok_call c k : P c -> (forall r, okp P Q (k r)) -> okp P Q (Call c k)
-| ok_panic s : okp P Q (Panic s)
-| ok_fuel : okp P Q OutOfFuel.
+(* ---- combined judgement: every call satisfies P, every reachable Panic site
+   satisfies S, and the result satisfies Q ------------------------------------ *)
+Inductive okp {A} (P : call -> Prop) (S : N -> Prop) (Q : A -> Prop) : prog A -> Prop :=
+| ok_ret a : Q a -> okp P S Q (Ret a)
+| ok_call c k : P c -> (forall r, okp P S Q (k r)) -> okp P S Q (Call c k)
+| ok_panic s : S s -> okp P S Q (Panic s)
+| ok_fuel : okp P S Q OutOfFuel.
 
-Lemma okp_bind {A B} P (Q1 : A -> Prop) (Q2 : B -> Prop) (p : prog A) (f : A -> prog B) :
-  okp P Q1 p -> (forall a, Q1 a -> okp P Q2 (f a)) -> okp P Q2 (bind p f).
+Lemma okp_bind {A B} P S (Q1 : A -> Prop) (Q2 : B -> Prop) (p : prog A) (f : A -> prog B) :
+  okp P S Q1 p -> (forall a, Q1 a -> okp P S Q2 (f a)) -> okp P S Q2 (bind p f).
 Proof.
-  intros Hp Hf. induction Hp as [a Ha | c k Hc Hk IH | s | ]; cbn.
+  intros Hp Hf. induction Hp as [a Ha | c k Hc Hk IH | s Hs | ]; cbn.
   - apply Hf, Ha.
   - constructor; [exact Hc|]. intro r. apply IH.
-  - constructor.
+  - constructor. exact Hs.
   - constructor.
 Qed.
 
-Lemma okp_weaken {A} P (Q1 Q2 : A -> Prop) (p : prog A) :
-  okp P Q1 p -> (forall a, Q1 a -> Q2 a) -> okp P Q2 p.
+Lemma okp_weaken {A} P S (Q1 Q2 : A -> Prop) (p : prog A) :
+  okp P S Q1 p -> (forall a, Q1 a -> Q2 a) -> okp P S Q2 p.
 Proof. intros Hp H. induction Hp; constructor; auto. Qed.
 
-Lemma okp_weaken_P {A} (P1 P2 : call -> Prop) (Q : A -> Prop) (p : prog A) :
-  (forall c, P1 c -> P2 c) -> okp P1 Q p -> okp P2 Q p.
+Lemma okp_weaken_P {A} (P1 P2 : call -> Prop) S (Q : A -> Prop) (p : prog A) :
+  (forall c, P1 c -> P2 c) -> okp P1 S Q p -> okp P2 S Q p.
 Proof. intros H Hp. induction Hp; constructor; auto. Qed.
 
-Lemma okp_all_calls {A} P (Q : A -> Prop) (p : prog A) : okp P Q p -> all_calls P p.
+Lemma okp_all_calls {A} P S (Q : A -> Prop) (p : prog A) : okp P S Q p -> all_calls P p.
 Proof. intro Hp. induction Hp; constructor; auto. Qed.
 
-Lemma okp_rets_true {A} P (p : prog A) : all_calls P p -> okp P (fun _ => True) p.
+(* "only the Panic sites in S are reachable, whatever the answers are" *)
+Inductive only_panics {A} (S : N -> Prop) : prog A -> Prop :=
+| op_ret a : only_panics S (Ret a)
+| op_call c k : (forall r, only_panics S (k r)) -> only_panics S (Call c k)
+| op_panic s : S s -> only_panics S (Panic s)
+| op_fuel : only_panics S OutOfFuel.
+
+Lemma okp_only_panics {A} P S (Q : A -> Prop) (p : prog A) : okp P S Q p -> only_panics S p.
 Proof. intro Hp. induction Hp; constructor; auto. Qed.
+
+Lemma only_panics_none_no_panic {A} (p : prog A) : only_panics (fun _ => False) p -> no_panic p.
+Proof. intro H. induction H; try constructor; auto. contradiction. Qed.
 
 Definition okR {A E} (Qa : A -> Prop) (r : result A E) : Prop :=
   match r with Ok a => Qa a | Err _ => True end.
 
-Lemma okp_bindR {A B E} P (Qa : A -> Prop) (Q2 : result B E -> Prop)
+Lemma okp_bindR {A B E} P S (Qa : A -> Prop) (Q2 : result B E -> Prop)
       (p : prog (result A E)) (f : A -> prog (result B E)) :
-  okp P (okR Qa) p -> (forall a, Qa a -> okp P Q2 (f a)) -> (forall e, Q2 (Err e)) ->
-  okp P Q2 (bindR p f).
+  okp P S (okR Qa) p -> (forall a, Qa a -> okp P S Q2 (f a)) -> (forall e, Q2 (Err e)) ->
+  okp P S Q2 (bindR p f).
 Proof.
   intros Hp Hf He. unfold bindR. eapply okp_bind; [exact Hp|].
   intros [a|e] Hq; [apply Hf, Hq | constructor; apply He].
 Qed.
 
-Lemma okp_map_err {A E F} P (Qa : A -> Prop) (g : E -> F) (p : prog (result A E)) :
-  okp P (okR Qa) p -> okp P (okR Qa) (map_err g p).
+Lemma okp_map_err {A E F} P S (Qa : A -> Prop) (g : E -> F) (p : prog (result A E)) :
+  okp P S (okR Qa) p -> okp P S (okR Qa) (map_err g p).
 Proof.
   intro Hp. unfold map_err. eapply okp_bind; [exact Hp|].
   intros [a|e] Hq; constructor; exact Hq.
